@@ -165,6 +165,14 @@ pub fn check_built(f: &F, expect: &CV, n: &Narsese) -> Result<String, String> {
 pub fn case(f: &F, v: &V) -> Result<String, String> {
     let f = *f;
     let v = v.clone();
+    // a constructor that refuses a placeholder among an image's own components (KF-1's shape) is
+    // not a violation of this property: such a value is then simply not constructible
+    if v.term.has_any_placeholder_component_in_image() {
+        let v2 = v.clone();
+        if quiet_catch(move || v2.build()).is_err() {
+            return Ok("<not constructible>".to_string());
+        }
+    }
     match quiet_catch(move || {
         let n = v.build();
         check_built(&f, &v.canon(), &n)
